@@ -813,6 +813,9 @@ class Transaction:
 
         try:
 
+            # inputs chosen by the caller are held like selected ones, so coin selection cannot add them a second time
+            await ledger.reserve_outputs([txi.txo_ref.txo for txi in tx.inputs if txi.txo_ref.txo is not None])
+
             for _ in range(5):
 
                 if payment < cost:
